@@ -183,3 +183,11 @@ def run(ctx, spec):
         cfg = slopecfg.make_config(rng, max_n=min(4, spec["max_n"]))
         ctx.case("relation_group", key=slopecfg.key(cfg) + "rel", nontrivial=True)
         relations(ctx, aotools, cfg, rng)
+
+TECHNIQUE = "icontract post-condition on the real builder vs independent reference model; relation monitor over tagged build groups"
+LEVEL_TEXT = ("Every matrix returned during randomised and hostile workloads (single- and multi-process builds) is compared entry-wise "
+              "with an independent four-point float64 reference, and checked for symmetry, PSD-ness, layer additivity and the r0 / wavelength "
+              "scaling laws. Held on the configurations observed (<= 4 WFS, masks <= 8x8); exploration is the right level because the "
+              "quantifier ranges over continuous geometry and no finite enumeration exists.")
+LEVEL_NOTE = ("Trusted: the reference model in aomon/oracles (triangulated against mpmath and a Hankel transform of the PSD at run time), "
+              "NumPy/SciPy. Assumes projected-diameter slope normalisation and n_w*d_w = telescope diameter.")
